@@ -1064,20 +1064,19 @@ class Stack(list):
     def op_numequal(self):
         if not self.is_arithmetic(2):
             return False
-        if self.pop() == self.pop():
+        if self.pop_as_number() == self.pop_as_number():
             self.append(b'\1')
         else:
             self.append(b'')
         return True
 
     def op_numequalverify(self):
-        self.op_numequal()
-        return self.op_verify()
+        return self.op_numequal() and self.op_verify()
 
     def op_numnotequal(self):
         if not self.is_arithmetic(2):
             return False
-        if self.pop() != self.pop():
+        if self.pop_as_number() != self.pop_as_number():
             self.append(b'\1')
         else:
             self.append(b'')
